@@ -87,7 +87,11 @@ func (X *Exec) validity(st *State, t *Term, T types.Type, depth int) *Term {
 		return ts.And(ts.Le(z, off), ts.Le(z, ln), ts.Le(ln, cp), ts.Le(cp, maxInt), ts.Le(z, arr),
 			ts.Implies(ts.Eq(arr, z), ts.And(ts.Eq(cp, z), ts.Eq(off, z))),
 			ts.Implies(ts.Not(ts.Eq(arr, z)), ts.Select(X.allocArr(st), arr)))
-	case *types.Pointer, *types.Map, *types.Chan:
+	case *types.Pointer:
+		// positive = reference to an allocated object; negative = address inside another object (see ptrTerm)
+		z := ts.IntLit(0)
+		return ts.Implies(ts.Lt(z, t), ts.Select(X.allocArr(st), t))
+	case *types.Map, *types.Chan:
 		z := ts.IntLit(0)
 		return ts.And(ts.Le(z, t), ts.Implies(ts.Not(ts.Eq(t, z)), ts.Select(X.allocArr(st), t)))
 	case *types.Signature:
@@ -358,10 +362,12 @@ func (X *Exec) ptrTerm(st *State, v *Val, why string) *Term {
 		if t, ok := X.firstClass(v.A); ok {
 			return t
 		}
+		// an address inside an array element or field is not an allocated object reference: it is modelled as a
+		// NEGATIVE number (object references are positive), so it can never be equal to a pointer obtained from new/&x
 		ts := X.E.TS
 		t := ts.Fresh("iaddr", SInt)
-		st.assume(ts, ts.Lt(ts.IntLit(0), t))
-		X.E.warn("%s: interior address used as a value (%s): identity abstracted", X.TopKey, why)
+		st.assume(ts, ts.Lt(t, ts.IntLit(0)))
+		X.E.warn("%s: interior address used as a value (%s): identity abstracted (distinct from every object reference)", X.TopKey, why)
 		return t
 	}
 	panic("ptrTerm: empty value")
